@@ -94,6 +94,11 @@ def adversarial_variants(ec, seed, msg, ph):
         h2 = int.from_bytes(ec.sha512(dom, R2, pk, m), "little") % L
         yield "R+T%d,S-rederived" % j, R2 + ((r + h2 * a) % L).to_bytes(32, "little"), msg, pk
         A2 = ec.point_encode(ec.point_add(Ap, T))
+        # mixed-order public key together with a small-order R (every encoding) and S derived for the pair: the cofactored equation holds,
+        # h*T can cancel the torsion of R - only the small-order test on R itself may refuse it
+        for i2, e2 in enumerate(so):
+            h4 = int.from_bytes(ec.sha512(dom, e2, A2, m), "little") % L
+            yield "A+T%d,R=smallorder%d,S=h*a" % (j, i2), e2 + ((h4 * a) % L).to_bytes(32, "little"), msg, A2
         yield "A+T%d" % j, sig, msg, A2
         h3 = int.from_bytes(ec.sha512(dom, R, A2, m), "little") % L
         yield "A+T%d,S-rederived" % j, R + ((r + h3 * a) % L).to_bytes(32, "little"), msg, A2
